@@ -133,7 +133,7 @@ def _check_history(ctx, c, model, loss, lineup, proposals, snapshots, E, N, D, r
     snapshots.append((rows, c.params_samp.copy(), c.losses_samp.copy(), c.series_samp.copy(), c.batch_num_samp.copy(), c.method_samp.copy()))
 
 
-def case(name, sizes, E, N, D, calls, n_jobs, sort, xgb=False, conv=None):
+def case(name, sizes, E, N, D, calls, n_jobs, sort, xgb=False, conv=None, mutating_model=False):
     P = 1
 
     def body(ctx):
@@ -145,6 +145,10 @@ def case(name, sizes, E, N, D, calls, n_jobs, sort, xgb=False, conv=None):
             def rec_model(theta, n_, seed):
                 out = inner(theta, n_, seed)
                 rec_model.calls.append((np.array(theta, dtype=object), n_, seed, out))
+                if mutating_model:
+                    # a model that rescales its parameter argument in place (legal Python; must not reach the recorded history)
+                    for j in range(len(theta)):
+                        theta[j] = theta[j] / 12
                 return out
 
             rec_model.__name__ = "model"
@@ -212,7 +216,7 @@ def case(name, sizes, E, N, D, calls, n_jobs, sort, xgb=False, conv=None):
             ctx.sample({"case": name, "rows": len(c.losses_samp), "model_runs": len(rec_model.calls)})
 
     def replay(cex):
-        return replay_concrete(sizes, E, N, D, calls, n_jobs, xgb, cex.values, conv)
+        return replay_concrete(sizes, E, N, D, calls, n_jobs, xgb, cex.values, conv, mutating_model)
 
     return Case(name, body, replay, time_budget=240)
 
@@ -230,23 +234,29 @@ class _SumLoss(BaseLoss):
 
 
 class _PS(BaseSampler):
+    all_outs = []
+
     def sample_batch(self, batch_size, search_space, existing_points, existing_losses):
         out = np.array([[self.vals.pop(0) if self.vals else 0.5] for _ in range(batch_size)])
         self.outs.append(out.copy())
+        _PS.all_outs.append(out.copy())
         return out
 
 
-def replay_concrete(sizes, E, N, D, calls, n_jobs, xgb, values, conv=None):
+def replay_concrete(sizes, E, N, D, calls, n_jobs, xgb, values, conv=None, mutating_model=False):
     """Real calibrator with a deterministic recording model; losses scripted from the model when available."""
     runs = []
 
     def model(theta, n_, seed):
         out = np.full((n_, D), float(theta[0])) + (seed % 997) * 1e-6 + np.arange(n_ * D).reshape(n_, D) * 1e-9
         runs.append((np.array(theta, dtype=float), n_, seed, out.copy()))
+        if mutating_model:
+            theta /= 12.0
         return out
 
     model.__name__ = "model"
     _SumLoss.log = []
+    _PS.all_outs = []
     Ls = sorted((int(k[1:]), v) for k, v in values.items() if k.startswith("L") and k[1:].isdigit())
     _SumLoss.scripted = [float(f(v)) for _, v in Ls]
     lineup = []
@@ -284,6 +294,10 @@ def replay_concrete(sizes, E, N, D, calls, n_jobs, xgb, values, conv=None):
                         bad_rows = [i for i in range(r0) if c.losses_samp[i] != L0[i]]
                         msgs.append(f"rows recorded earlier changed (loss rows {bad_rows}: {L0[bad_rows].tolist()} -> {c.losses_samp[bad_rows].tolist()})")
                 snaps.append((rows, c.params_samp.copy(), c.losses_samp.copy(), c.series_samp.copy()))
+                if not xgb and _PS.all_outs:
+                    prop = np.vstack(_PS.all_outs)
+                    if prop.shape != c.params_samp.shape or not np.array_equal(prop, c.params_samp):
+                        msgs.append(f"recorded parameters {c.params_samp.ravel().tolist()} are not the samplers' proposals {prop.ravel().tolist()}")
                 if len(runs) != rows * E:
                     msgs.append(f"{len(runs)} model runs for {rows} rows x {E}")
                 else:
@@ -312,6 +326,7 @@ def cases(tier, seed):
     cs.append(case("sort-B1B2-E2-3rows", [1, 2], 2, 1, 1, [2], 2, True))
     cs.append(case("xgb-lent-history", [2], 1, 1, 1, [2, 1], 1, False, xgb=True))
     cs.append(case("converge-then-continue", [1, 2], 1, 1, 1, [2, 1, 1], 1, False, conv=0))
+    cs.append(case("model-mutates-its-argument", [2], 2, 1, 1, [2], 1, False, mutating_model=True))
     if tier == "thorough":
         cs.append(case("three-B1B2B3-E2", [1, 2, 3], 2, 2, 1, [3, 1], 2, False))
         cs.append(case("sort-B2B1-E1-5rows", [2, 1], 1, 1, 1, [3], 1, True))
